@@ -24,6 +24,8 @@ func init() {
 
 type c15Case struct {
 	Dump *gen.Dump `json:"dump"`
+	// Race: a race report instead of a dump, every frame (operation and creation stacks) with arguments.
+	Race *gen.Race `json:"race,omitempty"`
 	// Tail: "" the dump as printed; "garbled": cut after CutLine lines and followed by a function line without
 	// its file line (the snapshot comes back together with a parse error); "readerr": the source fails after
 	// CutLine lines (the snapshot comes back together with the reader's error).
@@ -46,6 +48,10 @@ func (f *c15FailingReader) Read(p []byte) (int, error) {
 
 // c15Scan returns the snapshot of the case under the given options, and whether it came with an error.
 func c15Scan(c *c15Case, opts *stack.Opts) (*stack.Snapshot, error) {
+	if c.Race != nil {
+		s, _, _, err := scanAll(c.Race.Render(), opts)
+		return s, err
+	}
 	in := c.Dump.Render()
 	if c.Tail == "" {
 		s, _, _, err := scanAll(in, opts)
@@ -252,6 +258,11 @@ func genC15(r *core.Run, i int) *c15Case {
 	if np >= 60 {
 		cfg.MaxG, cfg.MaxFrames, cfg.MaxArgs = 12, 10, 8
 	}
+	if i%6 == 4 && len(pool) > 0 {
+		// a race report: its "created at" frames are printed with arguments too, which are not part of any
+		// goroutine's stack - the labels over the stacks still have to be dense and ordered
+		return &c15Case{Race: gen.GenRace(rr, &gen.RaceCfg{MaxOps: 3, MaxFrames: 4, CreateMode: 1, ForceArgs: true, PtrPool: pool})}
+	}
 	c := &c15Case{Dump: gen.GenDump(rr, cfg, rr.Intn(864))}
 	if i%5 == 3 {
 		// the labelling laws hold for every snapshot handed out, also one that comes with an error
@@ -269,6 +280,11 @@ func runC15(r *core.Run) {
 	core.Parallel(n, workers(), func(i int) {
 		c := genC15(r, i)
 		c15Eval(r, c)
+		if c.Race != nil {
+			r.Distinct(core.Hash64(c.Race.Render()))
+			r.Count("race_reports_with_arguments_in_creation_frames", 1)
+			return
+		}
 		r.Distinct(core.Hash64(c.Dump.Render()))
 		if i < 2 {
 			r.Sample(map[string]any{"dump": b2s(c.Dump.Render(), 900)})
